@@ -78,7 +78,15 @@ func (p *Policy) UnmarshalCedar(b []byte) error {
 	}
 
 	parser := newParser(tokens)
-	return p.fromCedar(&parser)
+	var policy Policy
+	if err = policy.fromCedar(&parser); err != nil {
+		return err
+	}
+	if !parser.peek().isEOF() {
+		return parser.errorf("unexpected token after the policy")
+	}
+	*p = policy
+	return nil
 }
 
 func (p *Policy) fromCedar(parser *parser) error {
